@@ -37,9 +37,6 @@ package genesis
 //@ spec declaredUpTo(g *GenesisConfig, z types.ZenonTokenStandard, n int) bool = exists k int :: 0 <= k && k < n && k < len(g.TokenConfig.Tokens) && g.TokenConfig.Tokens[k].TokenStandard == z
 //@ func CheckTokenTotalSupply(g) -> (err)
 //@   trusted
-//@   requires g != nil && g.TokenConfig != nil && g.GenesisBlocks != nil
-//@   requires forall k int :: 0 <= k && k < len(g.TokenConfig.Tokens) ==> g.TokenConfig.Tokens[k] != nil && g.TokenConfig.Tokens[k].TotalSupply != nil
-//@   requires forall k int :: 0 <= k && k < len(g.GenesisBlocks.Blocks) ==> g.GenesisBlocks.Blocks[k] != nil
 //@   ensures result == nil <==> g.okSupply
 //@   ensures-local[every-held-token-is-declared] err == nil ==> (forall z types.ZenonTokenStandard :: has(given, z) ==> declaredUpTo(g, z, len(g.TokenConfig.Tokens)))
 //@   modifies nothing
